@@ -889,12 +889,15 @@ def install(it):
     sp.globals["optimize"] = spopt
 
     def brentq(it_, ctx, f, a, b, args=(), **kw):
-        """A6: either raises ValueError (f(a) f(b) > 0) or returns a root in [a, b]"""
-        fa = it_.call(f, [a] + list(args), {}, ctx)
-        fb = it_.call(f, [b] + list(args), {}, ctx)
-        prod = num_binop("*", fa, fb)
-        if ctx.branch(num_cmp(">", prod, 0)):
+        """A6: either raises ValueError (f(a) f(b) > 0) / RuntimeError (no convergence), or returns a
+        root of f in [a, b] (tolerance idealised to 0).  Which of the three happens is left open."""
+        if not isinstance(args, (tuple, list)):
+            args = (args,)
+        which = ctx.choice(3)
+        if which == 1:
             raise_("ValueError", "f(a) and f(b) must have different signs")
+        if which == 2:
+            raise_("RuntimeError", "Failed to converge")
         x = ctx.fresh("brentq_root", R)
         ctx.assume(z3.And(lift(num_cmp(">=", x, a)), lift(num_cmp("<=", x, b))))
         fx = it_.call(f, [x] + list(args), {}, ctx)
